@@ -92,6 +92,12 @@ template<typename T> struct VarOptUnionFam {
   static std::string cfg_str(const Cfg& c) { return scfg_str(c); }
   static void construct(void* mem, const Cfg& c, Arena* a, Rng& r) { new (mem) Obj(r.coin() ? c.k1 : c.k2, A(a)); }
   static void mutate(Obj& o, const Cfg& c, Rng& r, Arena* scratch) {
+    if (r.chance(0.08)) {   // feed the union its own result: safety only
+      Sk res = o.get_result();
+      if (r.coin()) o.update(res); else o.update(std::move(res));
+      xcount(std::string(name()) + ".update_with_own_result");
+      return;
+    }
     Sk s(r.coin() ? c.k1 : c.k2, static_cast<resize_factor>(r.below(4)), A(scratch));
     const int rounds = static_cast<int>(r.below(3));
     for (int i = 0; i < rounds; ++i) feed<T>(s, c, r, scratch);
@@ -153,6 +159,14 @@ template<typename T> struct EbppsFam {
     (void)o.get_serialized_size_bytes(IK::serde(nullptr));
   }
   static const bool HAS_MERGE_REF = true, HAS_MERGE_MOVE = true, HAS_RESET = true, HAS_ROUNDTRIP = true;
+  // x.merge(x): n and the cumulative weight double, k stays
+  static const int SELF_MERGE = SM_DOUBLES;
+  static SelfMergeFacts self_merge_facts(const Obj& o, const Cfg&) {
+    SelfMergeFacts f;
+    f.doubles = {static_cast<double>(o.get_n()), o.get_cumulative_weight()};
+    f.same = "k=" + std::to_string(o.get_k());
+    return f;
+  }
   static void merge_ref(Obj& d, const Obj& s, const Cfg&) { d.merge(s); }
   static void merge_move(Obj& d, Obj&& s, const Cfg&) { d.merge(std::move(s)); }
   static void reset(Obj& o, const Cfg&) { o.reset(); }
